@@ -244,6 +244,143 @@ def aux_sweep(ctx, exe, S, only=None):
     return cases
 
 
+LONG_QUICK = {"beltCBCEncr", "beltCBCDecr", "beltCFBEncr", "beltCFBDecr", "beltCTR", "beltBDEEncr", "beltBDEDecr", "beltSDEEncr",
+              "beltSDEDecr", "beltMAC", "beltHMAC", "beltHash", "bashHash", "beltDWPWrap", "beltDWPUnwrap", "beltCHEWrap",
+              "beltCHEUnwrap", "beltKWPWrap", "beltKWPUnwrap", "beltFMTEncr", "beltFMTDecr", "memMove", "memJoin", "memXor", "memXor2",
+              "derEnc", "derTUINTEnc", "derTBITEnc", "derTPSTREnc"}
+# functions whose length is a free parameter: the scalar(s) that carry it
+LONG_PARAM = {"beltDWPWrap": ("n1", "n2"), "beltDWPUnwrap": ("n1", "n2"), "beltCHEWrap": ("n1", "n2"), "beltCHEUnwrap": ("n1", "n2"),
+              "memJoin": ("n1", "n2")}
+
+
+def place_case(S, rng, fn, spec, sc, fixed, contents, first=None):
+    """a Case with the buffers of `fixed` at the given addresses and all others apart"""
+    bufs = spec["bufs"]
+    size = {b: bufs[b][1](sc) for b in bufs}
+    al = {b: (8 if b in spec.get("align8", ()) else 4 if b in spec.get("align4", ()) else 2 if b in spec.get("align2", ()) else 1) for b in bufs}
+    addr = dict(fixed)
+    if any(v is not None and (v < 0 or v % al[b]) for b, v in addr.items()):
+        return None
+    hi = max([8] + [addr[b] + size[b] for b in addr if addr[b] is not None]) + 16
+    for b in bufs:
+        if b not in addr:
+            while hi % al[b]:
+                hi += 1
+            addr[b] = hi
+            hi += size[b] + 8
+    live = [b for b in bufs if addr[b] is not None]
+    for x, y in spec["forbid"]:
+        if x in live and y in live and S.intersects(addr[x], size[x], addr[y], size[y]):
+            return None
+    outs = [b for b in live if bufs[b][0] != "in"]
+    if any(S.intersects(addr[x], size[x], addr[y], size[y]) for i, x in enumerate(outs) for y in outs[i + 1:]):
+        return None
+    if spec.get("same_or_disjoint"):
+        d = spec["primary"][0]
+        if any(b != d and addr[b] != addr[d] and S.intersects(addr[b], size[b], addr[d], size[d]) for b in live):
+            return None
+    arena = bytearray(rng.randbytes(hi + 8))
+    order = ([first] if first else []) + [b for b in contents if b != first]
+    for b in order:
+        d = contents.get(b)
+        if d is not None and addr.get(b) is not None:
+            if b == "val" and fn == "derTPSTREnc":
+                arena[addr[b]:addr[b] + len(d)] = d
+            else:
+                arena[addr[b]:addr[b] + min(len(d), size[b])] = d[:size[b]]
+    return S.Case(fn, spec, sc, addr, bytes(arena))
+
+
+def long_cases(ctx, exe, S):
+    """length-dependent processing (chunked loops, thresholds): long buffers {4095, 4096, 4097, 8192, 8193, 65537} and the
+       blob-page sizes 1023..1025 with a sparse structured offset set (+-1, +-15, +-16, +-17, +-4095, +-4096, +-4097, +-(len-1), apart)
+       and every auxiliary buffer at the start / across and at a 4096 boundary / at the end of the region it can hurt.
+       Quick: the cheap functions with {4097, 8193} (full offset set) and {1023, 1024, 1025, 4095, 4096} (+-1); thorough: all.
+       65537-octet cases are compared on the implementation only (`c_only`)."""
+    rng, tier = ctx.rng, ctx.tier
+    cases = []
+    for fn, spec in S.SPEC.items():
+        if spec.get("word") or fn.startswith("beltKeyExpand") or fn == "beltKRP" or (fn.startswith("der") and fn.endswith(("Dec", "Dec2"))):
+            continue
+        if tier == "quick" and fn not in LONG_QUICK:
+            continue
+        base = dict(spec["scal"](rng, tier)[-1])
+        params = LONG_PARAM.get(fn, ("n",))
+        if not all(p in base for p in params):
+            continue
+        bufs = spec["bufs"]
+        po, pi = spec["primary"]
+        if fn in ("beltFMTEncr", "beltFMTDecr"):
+            lens_full, lens_pm1 = [600], [511, 512, 513]
+        elif tier == "quick":
+            lens_full, lens_pm1 = [4097, 8193], [1023, 1024, 1025, 4095, 4096]
+        else:
+            lens_full, lens_pm1 = [1024, 4095, 4096, 4097, 8192, 8193, 65537], [1023, 1025]
+        mult = 16 if fn[:7] in ("beltBDE", "beltSDE") else 1
+        for ln in lens_full + lens_pm1:
+            variants = [(ln,)] if len(params) == 1 else [(ln, 16), (ln, 0), (16, ln)] if fn != "memJoin" else [(ln, 1), (ln, 16), (16, ln)]
+            for var in variants:
+                sc = dict(base)
+                for pname, v in zip(params, var):
+                    sc[pname] = v // mult * mult if pname == params[0] or v > 64 else v
+                if fn == "derTBITEnc":
+                    sc["n"] = 8 * ln - 3
+                if fn == "memJoin" and sc["n2"] > 64:
+                    pass
+                size = {b: bufs[b][1](sc) for b in bufs}
+                if size[po] == 0 or size[pi] == 0:
+                    continue
+                prep = None
+                if "prepare" in spec:
+                    op, ex = spec["prepare"](rng, sc)
+                    prep = ex(run_robust(ctx, exe, [op])[0])
+                contents = {}
+                if "fill" in spec:
+                    contents.update(spec["fill"](rng, sc, prep))
+                if prep:
+                    contents.update({k: v for k, v in prep.items() if v is not None})
+                L = min(size[po], size[pi])
+                u = 2 if fn.startswith("beltFMT") else 1
+                offs = [1, -1] if ln in lens_pm1 else [1, -1, 15, -15, 16, -16, 17, -17, 4095, -4095, 4096, -4096, 4097, -4097, L - 1, -(L - 1), 0]
+                offs = [o * u for o in dict.fromkeys(offs) if abs(o) < max(size[po], size[pi])]
+                b0 = max(size.values()) + 64
+                b0 += b0 % 2
+                new = []
+                for off in offs + [None]:
+                    a_in = b0
+                    a_out = b0 + off if off is not None else b0 + size[pi] + 64 + (size[pi] % 2)
+                    c = place_case(S, rng, fn, spec, sc, {pi: a_in, po: a_out}, contents)
+                    if c:
+                        c.off, c.aux = (off if off is not None else 99999), "long"
+                        new.append(c)
+                # auxiliary buffers at the start / across and at a portion boundary / at the end
+                for aux in bufs:
+                    if aux in (po, pi) or size[aux] == 0 or ln in lens_pm1:
+                        continue
+                    la = size[aux]
+                    target = po if bufs[aux][0] == "in" else pi
+                    lt = size[target]
+                    for off in (None, 1 * u, -8 * u):
+                        a_in = b0
+                        a_out = b0 + off if off is not None else b0 + size[pi] + 64 + (size[pi] % 2)
+                        ta = a_out if target == po else a_in
+                        for m in dict.fromkeys([0, -la // 2, 4096 - la // 2, 4096, 4096 - la, lt - la, lt - la // 2, lt // 2]):
+                            if m + la <= 0 or m >= lt:
+                                continue
+                            c = place_case(S, rng, fn, spec, sc, {pi: a_in, po: a_out, aux: ta + m}, contents, first=aux)
+                            if c:
+                                c.off, c.aux = (off if off is not None else 99999), "long:" + aux
+                                new.append(c)
+                for c in new:
+                    if fn == "memJoin" and branch_of(c) >= 3 and sc["n2"] > 64:
+                        continue          # the rotation by count2 single steps is quadratic in the model: kept short
+                    if (fn in ("memXor", "memXor2") and ln > 4097):
+                        continue
+                    c.c_only = ln > 8193
+                    cases.append(c)
+    return cases
+
+
 def memjoin_sweep(ctx, S):
     """all placements of (dest, src1, src2) in a small arena for memJoin"""
     rng = ctx.rng
@@ -743,7 +880,7 @@ def run(ctx):
     exe = ctx.cc("harness/c11.c", "asan")
 
     # ---- generate placements; pass 1: disjoint calls on the implementation
-    cases = corpus_cases(S) + regression_cases(ctx, exe, S) + gen_cases(ctx, exe, S) + aux_sweep(ctx, exe, S) + memjoin_sweep(ctx, S) + S.math_cases(ctx.rng, ctx.tier)
+    cases = corpus_cases(S) + regression_cases(ctx, exe, S) + gen_cases(ctx, exe, S) + aux_sweep(ctx, exe, S) + long_cases(ctx, exe, S) + memjoin_sweep(ctx, S) + S.math_cases(ctx.rng, ctx.tier)
     H = _hl()
     exe_hl = ctx.cc("harness/c11_hl.c", "asan")
     hcases = hl_cases(ctx, exe_hl, S, H, tolerated=H.tolerated())
@@ -780,7 +917,8 @@ def run(ctx):
     state_found = state_sweep(ctx, exe)
 
     # ---- pass 2: correspondence model vs implementation
-    lines = build_lines(cases, dops, dres)
+    keep = [i for i, c in enumerate(cases) if not getattr(c, "c_only", False)]
+    lines = build_lines([cases[i] for i in keep], [dops[i] for i in keep], [dres[i] for i in keep])
     hlines = build_lines(hcases, hdops, hdres, H)
     mism = []
     if os.path.exists(ctx.driver()):
